@@ -444,6 +444,13 @@ def gen_C11(g, tier):
                     lines.append(f"{c} chunks {wd} {sl}")
                 other = offset_slice(g, c, g.text(c, r.randrange(0, 6)), r.randrange(0, 5))
                 lines.append(f"{c} chain {sl} {other}")
+            # the std adaptors (nth / skip / step_by / last / count / take) over the crate's iterators
+            sl = offset_slice(g, c, t, r.randrange(0, 64 // w + 1))
+            for kind in ("windows", "chunks", "iter", "reviter"):
+                for ad in ("nth", "skip", "stepby", "last", "count", "take", "nthnext"):
+                    wd = r.randrange(1, max(2, min(n, 5) + 1))
+                    arg = r.choice([0, 1, 2, 3, n // 2, n])
+                    lines.append(f"{c} adapt {kind} {wd} {ad} {arg} {sl}")
             lines.append(f"{c} intoiterv p str {hx(t)}")
             lines.append(f"{c} chunksvec 2 p str {hx(t)}")
             lines.append(f"{c} windows 0 p str {hx(t)}")
@@ -624,6 +631,7 @@ def gen_C08(g, tier):
                     sl = offset_slice(g, c, t, lead)
                     lines.append(f"{c} kmers {K} {sl}")
                     lines.append(f"{c} windows {K} {sl}")
+                    lines.append(f"{c} adapt kmers {K} {r.choice(['nth', 'skip', 'stepby', 'last', 'count', 'nthnext'])} {r.choice([0, 1, 2, 3])} {sl}")
                     lines.append(f"{c} kmer try {K} usize {sl}")
                     lines.append(f"{c} show kd {K} {sl}")
                     lines.append(f"{c} show ofkmer {K} {sl}")
@@ -829,7 +837,12 @@ def gen_C13(g, tier):
         lines.append(f"dna toamino p str {hx(g.text('dna', n))}")
     for _ in range(20 if tier == "quick" else 400):
         n = r.randrange(0, 120)
-        lines.append(f"dna translate {offset_slice(g, 'dna', g.text('dna', n), r.randrange(0, 33))}")
+        sl = offset_slice(g, 'dna', g.text('dna', n), r.randrange(0, 33))
+        lines.append(f"dna translate {sl}")
+        # the triplet iterators driven through the std adaptors (nth / skip / step_by)
+        for ad in ("nth", "skip", "stepby", "nthnext"):
+            lines.append(f"dna adapt windows 3 {ad} {r.choice([0, 1, 2, 3, 5, n // 3])} {sl}")
+            lines.append(f"dna adapt chunks 3 {ad} {r.choice([0, 1, 2, 3, 5, n // 3])} {sl}")
     return lines
 
 
@@ -961,6 +974,15 @@ def gen_C18(g, tier):
         for _ in range(15 if tier == "quick" else 300):
             v, n = rand_value(g, c, r.randrange(0, 7), 4 * per)
             lines.append(f"{c} serde {v}")
+        # owned sequences whose bit vector has a non-zero head (only constructible through From<&BitSlice>), and clones / edits of them
+        for off in ([1, 6, 63] if tier == "quick" else range(1, 64)):
+            n = r.choice([0, 1, per, per + 1, 2 * per + 1])
+            t = g.text(c, n)
+            lines.append(f"{c} serdert frombits {off} p str {hx(t)}")
+            lines.append(f"{c} serdert clone frombits {off} p str {hx(t)}")
+            lines.append(f"{c} serdert push 1 frombits {off} p str {hx(t)}")
+            lines.append(f"{c} show frombits {off} p str {hx(t)}")
+            lines.append(f"{c} eqfresh frombits {off} p str {hx(t)}")
         for (st, sbits) in STORAGES:
             for K in fitting_ks(w, sbits, tier, r):
                 top = 1 << (K * w)
